@@ -25,8 +25,10 @@ class C14(Check):
               "and the time arguments type-check (t_start ABS taken once; ABS + DUR; no ABS/REL/DUR mix)",
         "Q3": "time-course form: protocol index shifted to absolute time, t_start added to the requested points only under the "
               "relative flag, outer join with the step boundaries, half-open selection (t_start, t_end] then t_start := t_end",
+        "Q6": "(shared with C03) applying a step's values through Model.update_parameter(s) leaves no memoised cache from before the write in "
+              "place - reset on every exit, and no earlier snapshot of it stored back (I1 of C03, for these two methods)",
     }
-    floors = {"Q4": 4, "Q5": 3, "Q1": 3, "Q2": 8, "Q3": 4}
+    floors = {"Q4": 4, "Q5": 3, "Q1": 3, "Q2": 8, "Q3": 4, "Q6": 2}
     decided = [
         "step i's values are applied before, and only before, simulating step i's interval",
         "step intervals are (cumulative end of step i-1, cumulative end of step i] in absolute time, also when continuing an earlier run",
@@ -40,6 +42,7 @@ class C14(Check):
         sim = self.prog.module(SIM)
         self.borrow("C10", ("V2", "V5"), "Q4")
         self.borrow("C04", ("T3", "T8"), "Q5")
+        self.borrow("C03", ("I1",), "Q6", functions=("Model.update_parameter", "Model.update_parameters"))
         self.q1(init)
         run_time_rule(self, "Q2", ["simulate_protocol", "simulate_protocol_time_course"], {"time_points": ABS})
         # drop the duplicated store-frame obligations contributed by the shared pass 0 (they belong to C04/T1)
